@@ -266,10 +266,91 @@ func (s *linState) free(i int) {
 }
 
 func itoa2(n int) string {
-	return string([]byte{byte('0' + n/10), byte('0' + n%10)})
+	switch n {
+	case pC01:
+		return "01"
+	case pC03:
+		return "03"
+	case pC06:
+		return "06"
+	case pC13:
+		return "13"
+	case pC16:
+		return "16"
+	case pC17:
+		return "17"
+	case pC18:
+		return "18"
+	}
+	return "??"
 }
 
-// linearHistory: K arbitrary operations from a fresh block.
+// recipeAlloc performs one recipe allocation that is assumed to be granted (paths on which it is refused are
+// covered by the plain histories); oracles are not evaluated during recipes.
+func (s *linState) recipeAlloc(upper bool, symAlign bool, wantType AllocationRequestType) {
+	size := verifNondetInt("rsize")
+	verifAssume(size >= 1)
+	verifAssume(size <= s.B)
+	align := 1
+	if symAlign {
+		align = pow2("ralignLog", 4)
+	}
+	ok, req, err := s.m.CreateAllocationRequest(size, uint(align), upper, 1, 0, int(^uint(0)>>1))
+	verifAssume(err == nil)
+	verifAssume(ok)
+	verifAssume(req.Type == wantType)
+	ud := new(int)
+	verifAssume(s.m.Alloc(req, 1, ud) == nil)
+	off, _ := s.m.AllocationOffset(req.BlockAllocationHandle)
+	s.live = append(s.live, ghost{req.BlockAllocationHandle, off, size, align, upper, ud})
+	if s.prop == pC16 {
+		rok, roff, rlist := s.ref.request(size, align, upper)
+		verifAssert("C16/linear/recipe-same-success-as-reference", rok)
+		if rok {
+			verifAssert("C16/linear/recipe-same-offset-as-reference", off == roff)
+			s.ref.commit(rlist, refEnt{roff, size, ud})
+		}
+	}
+}
+
+// recipeAllocSized: recipe allocation of a concrete size and alignment 1.
+func (s *linState) recipeAllocSized(upper bool, size int, wantType AllocationRequestType) {
+	ok, req, err := s.m.CreateAllocationRequest(size, 1, upper, 1, 0, int(^uint(0)>>1))
+	verifAssume(err == nil)
+	verifAssume(ok)
+	verifAssume(req.Type == wantType)
+	ud := new(int)
+	verifAssume(s.m.Alloc(req, 1, ud) == nil)
+	off, _ := s.m.AllocationOffset(req.BlockAllocationHandle)
+	s.live = append(s.live, ghost{req.BlockAllocationHandle, off, size, 1, upper, ud})
+	if s.prop == pC16 {
+		rok, roff, rlist := s.ref.request(size, 1, upper)
+		verifAssert("C16/linear/recipe-same-success-as-reference", rok)
+		if rok {
+			verifAssert("C16/linear/recipe-same-offset-as-reference", off == roff)
+			s.ref.commit(rlist, refEnt{roff, size, ud})
+		}
+	}
+}
+
+func (s *linState) recipeFree(i int) {
+	g := s.live[i]
+	err := s.m.Free(g.h)
+	verifAssert("C"+itoa2(s.prop)+"/linear/recipe-free-succeeds", err == nil)
+	verifAssume(err == nil)
+	if s.prop == pC16 {
+		s.ref.free(g.ud)
+	}
+	s.live = removeAt(s.live, i)
+}
+
+// linearHistory: a canonical recipe (cfg) followed by K arbitrary operations, oracle after every operation.
+//
+//	cfg 0: empty block, B=100          cfg 1: empty block, B=128
+//	cfg 2: ring buffer L3(3, j, m): 3 lower allocations, free the first j in {1,2}, m in {2,3,4} wrap-around allocations
+//	cfg 3: double stack L2(2, 2): 2 lower + 2 upper allocations
+//	cfg 4: stack L1(4) with the two middle entries freed (null items in the middle of the first vector)
+//	cfg 5/6: compaction family (36 entries in the first vector, 21 freed in the middle; 5 = with an upper stack)
 func linearHistory(prop int, cfg int) {
 	B := 100
 	K := 3
@@ -282,6 +363,71 @@ func linearHistory(prop int, cfg int) {
 	m := NewLinearBlockMetadata(1, nullGran{})
 	m.Init(B)
 	s := &linState{m: m, B: B, prop: prop, ref: &refLinear{B: B}}
+	switch cfg {
+	case 2:
+		for i := 0; i < 3; i++ {
+			s.recipeAlloc(false, i == 2, AllocationRequestEndOf1st)
+		}
+		j := 1 + verifChoice("ringFreed", 2)
+		for i := 0; i < j; i++ {
+			s.recipeFree(0)
+		}
+		mm := 2 + verifChoice("ringWrapped", 3)
+		for i := 0; i < mm; i++ {
+			s.recipeAlloc(false, i == 1, AllocationRequestEndOf2nd)
+		}
+		K = 2
+		if verifTier() == 1 {
+			K = 3
+		}
+	case 3:
+		s.recipeAlloc(false, false, AllocationRequestEndOf1st)
+		s.recipeAlloc(false, true, AllocationRequestEndOf1st)
+		s.recipeAlloc(true, true, AllocationRequestUpperAddress)
+		s.recipeAlloc(true, true, AllocationRequestUpperAddress)
+		K = 2
+		if verifTier() == 1 {
+			K = 3
+		}
+	case 4:
+		for i := 0; i < 4; i++ {
+			s.recipeAlloc(false, i == 3, AllocationRequestEndOf1st)
+		}
+		s.recipeFree(1)
+		s.recipeFree(1)
+		K = 2
+		if verifTier() == 1 {
+			K = 3
+		}
+	case 5, 6:
+		// compaction family: more than 32 entries in the first vector, most of them freed in the middle.
+		// cfg 5: double stack (one upper allocation), cfg 6: plain stack. Sizes of the last three entries are symbolic.
+		if cfg == 5 {
+			s.recipeAllocSized(true, 4, AllocationRequestUpperAddress)
+		}
+		n := 36
+		for i := 0; i < n-3; i++ {
+			s.recipeAllocSized(false, 1, AllocationRequestEndOf1st)
+		}
+		for i := 0; i < 3; i++ {
+			s.recipeAlloc(false, false, AllocationRequestEndOf1st)
+		}
+		base := 0
+		if cfg == 5 {
+			base = 1
+		}
+		// free 21 entries from the middle (keeps the first entry and the last 14 alive)
+		for i := 0; i < 21; i++ {
+			s.recipeFree(base + 1)
+		}
+		K = 1
+		if verifTier() == 1 {
+			K = 2
+		}
+	}
+	if cfg >= 2 {
+		s.check("after-recipe")
+	}
 	for step := 0; step < K; step++ {
 		s.step = step
 		nops := 2
